@@ -24,6 +24,8 @@ HARNESS = os.environ.get("VERIF_HARNESS", os.path.join(ROOT, "harness"))
 PRIVATE = "VERIF_HARNESS" in os.environ
 BIN = os.path.join(HARNESS, ".bin") if PRIVATE else os.path.join(ROOT, ".bin")
 REPO = os.environ.get("VERIF_REPO", "/repo")
+# scratch-copy runs (mutation / seeded self-tests) get names of their own so that two of them can run side by side
+ALT = "" if REPO == "/repo" else "-alt-" + "".join(ch if ch.isalnum() else "_" for ch in REPO)[-40:]
 
 # property -> settings. shards: (quick, thorough); timeout_s per shard: (quick, thorough)
 PROPS = {
@@ -68,19 +70,19 @@ def modfile_args():
     """When VERIF_REPO points at a scratch copy, build against it through an alternate go.mod."""
     if REPO == "/repo":
         return [], None
-    alt = os.path.join(HARNESS, "go.alt.mod")
+    alt = os.path.join(HARNESS, "go%s.mod" % ALT)
     with open(os.path.join(HARNESS, "go.mod")) as f:
         txt = f.read()
     txt = txt.replace("=> /repo", "=> " + REPO)
     with open(alt, "w") as f:
         f.write(txt)
-    shutil.copy(os.path.join(HARNESS, "go.sum"), os.path.join(HARNESS, "go.alt.sum"))
+    shutil.copy(os.path.join(HARNESS, "go.sum"), os.path.join(HARNESS, "go%s.sum" % ALT))
     return ["-modfile=" + alt], alt
 
 
 def build(need_cli=False, race=False, quiet=True):
     os.makedirs(BIN, exist_ok=True)
-    suffix = "" if REPO == "/repo" else "-alt"
+    suffix = ALT
     lock = open(os.path.join(BIN, "build.lock"), "w")
     fcntl.flock(lock, fcntl.LOCK_EX)
     try:
@@ -105,7 +107,7 @@ def build(need_cli=False, race=False, quiet=True):
 
 
 def run_shard(pid, tier, seed, shard, nshards, race, timeout, outdir):
-    suffix = "" if REPO == "/repo" else "-alt"
+    suffix = ALT
     exe = os.path.join(BIN, "checks%s%s.test" % (suffix, ".race" if race else ""))
     out = os.path.join(outdir, "%s.%d.json" % (pid, shard))
     log = os.path.join(outdir, "%s.%d.log" % (pid, shard))
@@ -313,7 +315,7 @@ def replay(path):
             os.remove(tmp)
     if not build(need_cli=True):
         return 2
-    suffix = "" if REPO == "/repo" else "-alt"
+    suffix = ALT
     exe = os.path.join(BIN, "checks%s.test" % suffix)
     env = goenv()
     env.update(VERIF_REPLAY=os.path.abspath(path), VERIF_ROOT=ROOT, VERIF_REPO=REPO,
